@@ -19,7 +19,12 @@ Record vattrs := { va_id : option str; va_hidden : bool; va_class : str; va_on :
 Inductive view :=
 | VText (kind : nat) (s : str)                     (* 0 String (also &str once erased), 1 i32 *)
 | VUnit
-| VEl (tag : nat) (a : vattrs) (child : view)
+| VEl (tag : nat) (a : vattrs) (child : view)      (* any element: 0 p, 1 span, 2 div, and the raw-text elements
+                                                      3 textarea, 4 style, 5 script, 6 noscript
+                                                      ([ESCAPE_CHILDREN = false]): on the client
+                                                      [Render::build] / [rebuild] of [HtmlElement] build, mount,
+                                                      RETAIN and rebuild the children of every element alike
+                                                      (only [hydrate] and the HTML output look at that flag) *)
 | VTuple (arr : bool) (l : list view)              (* tuple, or array [T; N] *)
 | VEither (arity : nat) (branch : nat) (child : view)   (* Either (2) / EitherOf3 (3) *)
 | VOpt (o : option view)
